@@ -1178,26 +1178,6 @@ func checkLinkFirst(p *load.Program, r *kit.Report, rule string) {
 		}
 		return false
 	}
-	loopHeaderOf := func(b *ssa.BasicBlock) *ssa.BasicBlock {
-		var best *ssa.BasicBlock
-		bestN := 0
-		for _, h := range f.Blocks {
-			back := false
-			for _, pr := range h.Preds {
-				if h.Dominates(pr) {
-					back = true
-				}
-			}
-			if !back {
-				continue
-			}
-			l := naturalLoop(h)
-			if l[b] && (best == nil || len(l) < bestN) {
-				best, bestN = h, len(l)
-			}
-		}
-		return best
-	}
 	n := 0
 	bad := ""
 	var check func(v ssa.Value, after []*ssa.BasicBlock, depth int)
@@ -1210,11 +1190,14 @@ func checkLinkFirst(p *load.Program, r *kit.Report, rule string) {
 		}
 		if e := isElem(v); e != nil {
 			n++
-			if _, lo, okC := indexCounter(kit.Strip(e.X.(*ssa.IndexAddr).Index)); !okC || lo != 0 {
+			ctr, lo, okC := indexCounter(kit.Strip(e.X.(*ssa.IndexAddr).Index))
+			if !okC || lo != 0 {
 				bad = "the list is not scanned from its first (oldest) branch upwards in steps of one: Find answers through ancestors, so with any other order the first branch that knows the previous hash can be a sibling that forked lower, not the parent"
 				return
 			}
-			h := loopHeaderOf(e.Block())
+			// the loop is the one whose header carries the index (a block that leaves the loop
+			// right after taking the element is not part of the natural loop)
+			h := ctr.Block()
 			if h == nil {
 				bad = "the branch stored as parent is not taken inside a loop over the list"
 				return
@@ -1230,6 +1213,14 @@ func checkLinkFirst(p *load.Program, r *kit.Report, rule string) {
 					continue
 				}
 				check(e, []*ssa.BasicBlock{phi.Block()}, depth+1)
+			}
+			return
+		}
+		// delegated to Branches.Find on the same list: its own first-match shape is checked
+		if c := callOf(v, 0); c != nil && kit.CallID(c) == H+".Branches.Find" && len(c.Call.Args) > 0 && kit.Strip(c.Call.Args[0]) == ssa.Value(list) {
+			n++
+			if why := firstMatchReturn(p, p.Func(H, "Branches.Find")); why != "" {
+				bad = "Branches.Find: " + why
 			}
 			return
 		}
@@ -1282,4 +1273,38 @@ func checkIsLonger(p *load.Program, r *kit.Report, workF *types.Var) {
 		}
 	}
 	r.Check(bad == "", "ARGMAX", "Branch.IsLonger/cmp", posOf(p, f.Blocks[0].Instrs[0]), "receiver's Last().AccumulatedWork.Cmp(argument's) > 0", bad)
+}
+
+
+// firstMatchReturn: g (a method on a list type) returns, as its first result, the element of its
+// receiver list at which it stops: the element is indexed by a counter ascending from 0 in steps of
+// one and the return is taken right there (so it is the first match). "" when that holds.
+func firstMatchReturn(p *load.Program, g *ssa.Function) string {
+	if g == nil || g.Blocks == nil || len(g.Params) == 0 {
+		return "function not found"
+	}
+	list := g.Params[0]
+	n := 0
+	for _, ret := range kit.Returns(g) {
+		v := kit.RetOperand(ret, 0)
+		if kit.IsNilConst(v) {
+			continue
+		}
+		u, ok := kit.Strip(v).(*ssa.UnOp)
+		if !ok || u.Op != token.MUL {
+			return "returns " + describe(v) + ", not an element of the list"
+		}
+		ia, ok := u.X.(*ssa.IndexAddr)
+		if !ok || kit.Strip(ia.X) != ssa.Value(list) {
+			return "returns " + describe(v) + ", not an element of the list"
+		}
+		if _, lo, okC := indexCounter(kit.Strip(ia.Index)); !okC || lo != 0 {
+			return "the list is not scanned upwards from its first element"
+		}
+		n++
+	}
+	if n == 0 {
+		return "never returns an element"
+	}
+	return ""
 }
